@@ -381,7 +381,7 @@ func corpus() []string {
 
 func init() { register("C18", "TestC18_Robust", checkC18, c18Src) }
 
-const c18Rule = "inputs: token soup over a 110-word vocabulary (incl. NUL, U+FFFD, BOM, lone quotes/backticks, names imitating generated labels); valid generated whole files mutated by deleting/duplicating/swapping/replacing/inserting tokens, emptying bracket groups and truncation at tokens and bytes; every string literal of the pinned tests and README code block (also truncated); the complete one-edit neighbourhood of 35 template programs, one per production (TestC18_Enum); hostile shapes (parentheses and blocks nested up to 300 deep, 400-fold repetitions, boundary multipliers, arbitrary unicode); 16384 option combinations (optimize, line markers, path, switches, font config present/absent/garbage/custom/hostile numbers/missing default/empty, default font, line length, command config). oracle: no panic, token budget not exceeded, error is a ParseError with 1<=start<=end<=lines, same in lint mode, lint accepts what normal accepts. non-trivial = accepted, or the error is located beyond the first token; distinct by (input, flags)"
+const c18Rule = "inputs: token soup over a 110-word vocabulary (incl. NUL, U+FFFD, BOM, lone quotes/backticks, names imitating generated labels); valid generated whole files mutated by deleting/duplicating/swapping/replacing/inserting tokens, emptying bracket groups and truncation at tokens and bytes; every string literal of the pinned tests and README code block (also truncated); the complete one-edit neighbourhood of 42 template programs (35 valid ones, one per production, and 7 near misses), one per production (TestC18_Enum); hostile shapes (parentheses and blocks nested up to 300 deep, 400-fold repetitions, boundary multipliers, arbitrary unicode); 16384 option combinations (optimize, line markers, path, switches, font config present/absent/garbage/custom/hostile numbers/missing default/empty, default font, line length, command config). oracle: no panic, token budget not exceeded, error is a ParseError with 1<=start<=end<=lines, same in lint mode, lint accepts what normal accepts. non-trivial = accepted, or the error is located beyond the first token; distinct by (input, flags)"
 
 func TestC18_Regress(t *testing.T) { runRegress(t, "C18") }
 
